@@ -49,6 +49,7 @@ void byte_array_lifetime_check(const std::string& path, const Table& t) {
 }
 
 void run_c01(sim::RunCtx& ctx) {
+    gen::g_row_cap = 0;
     gen::FlatOpts fo;
     gen::WritePlan p = gen::gen_write_plan(fo);
     common::apply_benign_knobs();
